@@ -1131,15 +1131,42 @@ class FortranFile:
         post_lines = []
         if forward:
             if self.fixed:
-                if line_ind < self.nLines:
+
+                def cut_comment(text: str) -> str:
+                    # Trailing `!` comment, outside character literals and not the
+                    # continuation mark in column 6
+                    i_comm = strip_strings(text, maintain_len=True).find("!", 6)
+                    return text if i_comm < 0 else text[:i_comm]
+
+                # Comment, blank and preprocessor lines may lie between the
+                # lines of a statement, they only count if a continuation follows
+                pending = []
+                i_code = -1  # last code line in post_lines, -1: curr_line
+                while line_ind < self.nLines:
                     next_line = self.get_line(line_ind, pp_content)
                     line_ind += 1
-                    cont_match = FRegex.FIXED_CONT.match(next_line)
-                    while (cont_match is not None) and (line_ind < self.nLines):
+                    if FRegex.FIXED_CONT.match(next_line):
+                        # The comment of a line that is continued ends that line
+                        if i_code < 0:
+                            curr_line = cut_comment(curr_line)
+                        else:
+                            post_lines[i_code] = cut_comment(post_lines[i_code])
+                        post_lines += pending
+                        pending = []
                         post_lines.append(" " * 6 + next_line[6:])
-                        next_line = self.get_line(line_ind, pp_content)
-                        line_ind += 1
-                        cont_match = FRegex.FIXED_CONT.match(next_line)
+                        i_code = len(post_lines) - 1
+                    elif (
+                        next_line.strip() == ""
+                        or FRegex.FREE_COMMENT.match(next_line)
+                        or FRegex.PP_ANY.match(next_line)
+                        or (
+                            FRegex.FIXED_COMMENT.match(next_line)
+                            and not FRegex.FIXED_OPENMP.match(next_line)
+                        )
+                    ):
+                        pending.append("")
+                    else:
+                        break
             else:
                 line_stripped = strip_strings(curr_line, maintain_len=True)
                 iAmper = line_stripped.find("&")
